@@ -47,12 +47,8 @@ Definition unspec (o : str) : bool := has_suffix (b "UNSPECIFIED") o.
 Definition enum_append_ok (opts extra : list str) : Prop :=
   opts <> [] \/ match extra with [] => True | o :: _ => unspec o = false end.
 
-(* inside a declaration (EAppendIn) the excluded append changes nothing *)
-Definition enum_snoc (e : enum) (o : str) : enum :=
-  match e_opts e with
-  | [] => if unspec o then e else mkEnum (e_name e) (e_prefix e) [o]
-  | _ => mkEnum (e_name e) (e_prefix e) (e_opts e ++ [o])
-  end.
+(* the edit itself: the option goes to the end, whatever it is called *)
+Definition enum_snoc (e : enum) (o : str) : enum := mkEnum (e_name e) (e_prefix e) (e_opts e ++ [o]).
 
 (* the inline type of a field (through array and map items) *)
 Fixpoint in_field (onmsg : props -> props) (onenum : enum -> enum) (f : field) {struct f} : field :=
@@ -104,6 +100,58 @@ Fixpoint apply_at (path : list step) (a : action) (ps : props) (subs : nesteds) 
   end.
 
 Definition apply_props (path : list step) (a : action) (ps : props) : props := fst (apply_at path a ps NNil).
+
+(* When an append at an address is one of the edits C13_full speaks about: everything except an
+   option ending in UNSPECIFIED appended to an enum without options (enum_append_ok), wherever
+   the address leads.  Same traversal as [apply_at]. *)
+Fixpoint field_at_ok (P : props -> Prop) (E : enum -> Prop) (f : field) {struct f} : Prop :=
+  match f with
+  | FObjInline _ ps | FOneofInline _ ps => P ps
+  | FEnumInline e => E e
+  | FArray it | FMap it => field_at_ok P E it
+  | _ => True
+  end.
+Definition nested_at_ok (P : props -> nesteds -> Prop) (E : enum -> Prop) (n : nested) : Prop :=
+  match n with NObject _ ps subs | NOneof _ ps subs => P ps subs | NEnum e => E e end.
+Fixpoint prop_at (i : nat) (Q : field -> Prop) (ps : props) : Prop :=
+  match ps, i with
+  | PNil, _ => True
+  | PCons (Property _ _ _ f) _, O => Q f
+  | PCons _ r, S k => prop_at k Q r
+  end.
+Fixpoint nested_at (k : nat) (Q : nested -> Prop) (ns : nesteds) : Prop :=
+  match ns, k with
+  | NNil, _ => True
+  | NCons n _, O => Q n
+  | NCons _ r, S j => nested_at j Q r
+  end.
+Fixpoint at_ok (path : list step) (a : action) (ps : props) (subs : nesteds) {struct path} : Prop :=
+  let enum_ok rest := fun e => match rest, a with [], AOption o => enum_append_ok (e_opts e) [o] | _, _ => True end in
+  match path with
+  | [] => True
+  | SInline i :: rest => prop_at i (field_at_ok (fun q => at_ok rest a q NNil) (enum_ok rest)) ps
+  | SNested k :: rest => nested_at k (nested_at_ok (at_ok rest a) (enum_ok rest)) subs
+  end.
+
+(* the same for an edit of a root element *)
+Definition nth_ok {A} (k : nat) (Q : A -> Prop) (l : list A) : Prop :=
+  match nth_error l k with Some x => Q x | None => True end.
+Definition element_edit_ok (e : edit) (el : element) : Prop :=
+  match e, el with
+  | EAppendOption _ _ o, EEnum en => enum_append_ok (e_opts en) [o]
+  | EAppendIn _ _ AtDecl path a, EObject _ ps subs | EAppendIn _ _ AtDecl path a, EOneof _ ps subs => at_ok path a ps subs
+  | EAppendIn _ _ (AtRequest m) path a, EService s => nth_ok m (fun x => at_ok path a (m_request x) NNil) (sv_methods s)
+  | EAppendIn _ _ (AtResponse m) path a, EService s =>
+      nth_ok m (fun x => match m_response x with Some r => at_ok path a r NNil | None => True end) (sv_methods s)
+  | EAppendIn _ _ (AtTopicMsg reply k) path a, ETopic t =>
+      let one := fun x => at_ok path a (tm_fields x) NNil in
+      match t with
+      | TPublish _ msgs => nth_ok k one msgs
+      | TReqRes _ rq rp => if reply then nth_ok k one rp else nth_ok k one rq
+      | TUpsert _ _ m | TEvent _ _ m => one m
+      end
+  | _, _ => True
+  end.
 
 Definition edit_element (e : edit) (el : element) : element :=
   match e, el with
